@@ -51,6 +51,11 @@ func (r *Runner) execCodec(a []string) string {
 			b := append([]byte{}, in...)
 			v, derr := enc.DecodeUvarint64(&b)
 			out = r.showDec(in, b, derr, strconv.FormatUint(v, 10))
+			r.decodeAgain("DecodeUvarint64", in, out, func(b *[]byte) string {
+				orig := append([]byte{}, (*b)...)
+				v, e := enc.DecodeUvarint64(b)
+				return r.showDecQuiet(orig, *b, e, strconv.FormatUint(v, 10))
+			})
 		case "encv":
 			v, err := strconv.ParseInt(arg, 10, 64)
 			if err != nil {
@@ -78,6 +83,11 @@ func (r *Runner) execCodec(a []string) string {
 			b := append([]byte{}, in...)
 			v, derr := enc.DecodeVarint64(&b)
 			out = r.showDec(in, b, derr, strconv.FormatInt(v, 10))
+			r.decodeAgain("DecodeVarint64", in, out, func(b *[]byte) string {
+				orig := append([]byte{}, (*b)...)
+				v, e := enc.DecodeVarint64(b)
+				return r.showDecQuiet(orig, *b, e, strconv.FormatInt(v, 10))
+			})
 		case "decv32":
 			in, err := parseBytes(arg)
 			if err != nil {
@@ -87,6 +97,11 @@ func (r *Runner) execCodec(a []string) string {
 			b := append([]byte{}, in...)
 			v, derr := enc.DecodeVarint32(&b)
 			out = r.showDec(in, b, derr, strconv.FormatInt(int64(v), 10))
+			r.decodeAgain("DecodeVarint32", in, out, func(b *[]byte) string {
+				orig := append([]byte{}, (*b)...)
+				v, e := enc.DecodeVarint32(b)
+				return r.showDecQuiet(orig, *b, e, strconv.FormatInt(int64(v), 10))
+			})
 			if derr == nil {
 				c := append([]byte{}, in...)
 				v64, _ := enc.DecodeVarint64(&c)
@@ -118,6 +133,11 @@ func (r *Runner) execCodec(a []string) string {
 			b := append([]byte{}, in...)
 			v, derr := enc.DecodeFloat64LE(&b)
 			out = r.showDec(in, b, derr, fmt.Sprintf("%016x", math.Float64bits(v)))
+			r.decodeAgain("DecodeFloat64LE", in, out, func(b *[]byte) string {
+				orig := append([]byte{}, (*b)...)
+				v, e := enc.DecodeFloat64LE(b)
+				return r.showDecQuiet(orig, *b, e, fmt.Sprintf("%016x", math.Float64bits(v)))
+			})
 		case "encvf":
 			bits, err := strconv.ParseUint(arg, 16, 64)
 			if err != nil {
@@ -140,7 +160,7 @@ func (r *Runner) execCodec(a []string) string {
 			}
 			// every strict prefix is an end-of-input error that consumes nothing
 			for k := 0; k < len(b); k++ {
-				p := append([]byte{}, b[:k]...)
+				p := roomy(b[:k], b[len(b)-1])
 				_, perr := enc.DecodeVarfloat64(&p)
 				if perr != io.EOF || len(p) != k {
 					r.oracleFail("codec-prefix-eof", fmt.Sprintf("varfloat64 %x cut at %d: err=%v rest=%d", b, k, perr, len(p)))
@@ -155,6 +175,11 @@ func (r *Runner) execCodec(a []string) string {
 			b := append([]byte{}, in...)
 			v, derr := enc.DecodeVarfloat64(&b)
 			out = r.showDec(in, b, derr, showF(v))
+			r.decodeAgain("DecodeVarfloat64", in, out, func(b *[]byte) string {
+				orig := append([]byte{}, (*b)...)
+				v, e := enc.DecodeVarfloat64(b)
+				return r.showDecQuiet(orig, *b, e, showF(v))
+			})
 		default:
 			out = "bad-op"
 		}
@@ -164,6 +189,13 @@ func (r *Runner) execCodec(a []string) string {
 		return "panic"
 	}
 	return out
+}
+
+func (r *Runner) showDecQuiet(in, rest []byte, err error, val string) string {
+	if err != nil {
+		return "err " + errName(err)
+	}
+	return fmt.Sprintf("ok %s %s", val, showBytes(rest))
 }
 
 func (r *Runner) showDec(in, rest []byte, err error, val string) string {
@@ -190,10 +222,39 @@ func (r *Runner) codecRoundTripU(v uint64, b []byte) {
 		r.oracleFail("codec-size", fmt.Sprintf("uvarint64 %d: len %d size %d", v, len(b), enc.Uvarint64Size(v)))
 	}
 	for k := 0; k < len(b); k++ {
-		p := append([]byte{}, b[:k]...)
+		p := roomy(b[:k], b[len(b)-1])
 		_, perr := enc.DecodeUvarint64(&p)
 		if perr != io.EOF || len(p) != k {
 			r.oracleFail("codec-prefix-eof", fmt.Sprintf("uvarint64 %x cut at %d: err=%v rest=%d", b, k, perr, len(p)))
+		}
+	}
+}
+
+// roomy returns a slice with the same content as in, cut from a larger backing array whose spare
+// capacity holds plausible-looking stale bytes (a reused receive buffer): a decoder must not read them.
+func roomy(in []byte, stale byte) []byte {
+	buf := make([]byte, len(in)+24)
+	copy(buf, in)
+	for i := len(in); i < len(buf); i++ {
+		buf[i] = stale
+	}
+	return buf[:len(in)]
+}
+
+// decodeAgain runs a decoder on roomy variants of the input and reports any difference from the
+// result obtained on an exact-capacity copy (C18: decoding depends on the input bytes only).
+func (r *Runner) decodeAgain(name string, in []byte, want string, dec func(b *[]byte) string) {
+	for _, stale := range []byte{0x00, 0x7f, 0x80, 0xff} {
+		b := roomy(in, stale)
+		var got string
+		okp, msg := guard(func() { got = dec(&b) })
+		if !okp {
+			r.oracleFail("codec-reads-beyond-input", fmt.Sprintf("%s on %x with spare capacity (stale %02x): panic %s", name, in, stale, msg))
+			return
+		}
+		if got != want {
+			r.oracleFail("codec-reads-beyond-input", fmt.Sprintf("%s on %x: %q with exact capacity, %q with spare capacity (stale %02x)", name, in, want, got, stale))
+			return
 		}
 	}
 }
